@@ -33,6 +33,6 @@ def run(replay=None):
     for i, clause in rec.validate(canary):
         inf = rec.info[i]
         rep.violation('%s|%s' % (clause, inf['text']), 'simplify(%r) -> %s violates %s' % (inf['text'], inf['result'] or inf['out'], clause), inf)
-    for e in rec.events[:: max(1, len(rec.events) // 8)]:
+    for e in rec.dict_events()[:: max(1, len(rec.dict_events()) // 8)]:
         rep.sample({'input': rec.info[e['id']]['text'], 'output': rec.info[e['id']]['result'], 'valuations': len(e['rhos'])})
     return rep.finish()
